@@ -7,6 +7,10 @@ ids = [p["id"] for p in props]
 
 # id -> (technique, level text, level note, design ref)
 CLAIMED = {
+ "C19": ("proptest-generated W arrays / simple-font tables / code-to-text maps / conformant CMap texts; reference model (map of assigned widths, map of entries) as oracle, write_cmap round-trip",
+         "Generated-input search: composite-font width arrays with groups in any order and both forms (the evidence counts the five growth cases empty/append/prepend/gap/inside), simple fonts, maps with BMP, supplementary and multi-character texts, and independently generated CMap texts using bfchar and both bfrange forms with 1- and 2-byte codes; every probed code's width and the exact set of map entries are compared with the model.",
+         "fonts are read through the public API from files written by the harness; simple fonts carry no /MissingWidth",
+         "DESIGN.md §4 C19"),
  "C06": ("proptest-generated encrypted documents produced by an independent implementation of the standard security handler; oracle = known plaintext and password acceptance/rejection",
          "Generated-input search over (variant R2-R6, key length, user/owner password, P, ID, EncryptMetadata, object/generation numbers, string/stream lengths incl. empty and block-aligned, xref kind, encrypted object streams): with either password every string and stream must equal the plaintext the harness encrypted, wrong passwords must give InvalidPassword, the encryption dictionary's own strings and an unencrypted metadata stream must come back as written.",
          "MD5, SHA-2 and AES block primitives are trusted; key schedules, RC4 and Algorithm 2.B are implemented independently in harness/src/engine/crypt.rs and anchored on the corpus's password-protected files",
